@@ -1,31 +1,27 @@
 package prometheus
 
-// C17 — tunnel time per access key equals the time during which each client had at least one
-// tunnel open; no double counting of overlaps, nothing lost or repeated across scrapes.
-
+// C17 — tunnel time per access key (white box: drives tunnelTimeMetrics directly).
 import (
 	"errors"
 	"net"
 	"net/netip"
+	"sync"
 	"time"
 
 	"github.com/Jigsaw-Code/outline-ss-server/ipinfo"
 	"github.com/Jigsaw-Code/outline-ss-server/service/metrics"
+	"github.com/prometheus/client_golang/prometheus"
 )
 
-var verifClockNs int64
-
-func verifInstallClock(start int64) {
-	verifClockNs = start
-	now = func() time.Time { return verifTime(verifClockNs) }
-}
-
-func verifAdvance() int64 {
-	dt := verifI64("dt")
-	verifAssume(dt >= 0 && dt <= 1<<40)
-	verifClockNs += dt
-	return dt
-}
+// keep the imports used whatever this file ends up holding
+var _ = errors.New
+var _ net.IP
+var _ netip.Addr
+var _ sync.Mutex
+var _ time.Duration
+var _ ipinfo.IPInfo
+var _ metrics.ProxyMetrics
+var _ prometheus.Metric
 
 func verifC17History(steps int) {
 	verifInstallClock(1 << 41)
@@ -83,19 +79,6 @@ func verifC17History(steps int) {
 }
 
 func VH_C17_history() { verifC17History(4) }
-
-// a location database that fails for some lookups (each lookup fails or not, arbitrarily)
-type verifFlakyDB struct{ lookups int }
-
-func (d *verifFlakyDB) GetIPInfo(ip net.IP) (ipinfo.IPInfo, error) {
-	d.lookups++
-	if verifFlag("lookup-fails") {
-		return ipinfo.IPInfo{}, errVerifDB
-	}
-	return ipinfo.IPInfo{CountryCode: "AA", ASN: ipinfo.ASN{Number: 64500, Organization: "Org"}}, nil
-}
-
-var errVerifDB = errors.New("db failure")
 
 // tunnel time does not depend on the location database working: histories over one client with
 // a database that fails arbitrarily
@@ -274,25 +257,4 @@ func VH_C17_unauthenticated_after_authenticated() {
 	verifAssert("C17.recycled.total", verifEqNanos(verifCounterValue(m.tunnelTimeMetrics.tunnelTimePerKey, "ns", "k1"), total))
 	verifAssert("C17.recycled.nothing-under-the-empty-key", verifCounterValue(m.tunnelTimeMetrics.tunnelTimePerKey, "ns", "") == 0)
 	verifReach("C17.recycled.done", true)
-}
-
-// two clients with different locations are active at a scrape: each one's time goes under its
-// own key and its own location
-func VH_C17_two_locations_at_a_scrape() {
-	verifInstallClock(1 << 41)
-	db := &verifPerAddrDB{}
-	c := newTunnelTimeMetrics(db)
-	k4 := IPKey{netip.AddrFrom4([4]byte{203, 0, 113, 4}), "even"} // database: AA / 64500
-	k5 := IPKey{netip.AddrFrom4([4]byte{203, 0, 113, 5}), "odd"}  // database: BB / 64501
-	c.startConnection(k4)
-	d0 := verifAdvance()
-	c.startConnection(k5)
-	d1 := verifAdvance()
-	c.Collect(make(chan prometheus_Metric, 16))
-	verifAssert("C17.two-locations.per-key", verifEqNanos(verifCounterValue(c.tunnelTimePerKey, "ns", "even"), d0+d1) && verifEqNanos(verifCounterValue(c.tunnelTimePerKey, "ns", "odd"), d1))
-	verifAssert("C17.two-locations.per-location", verifEqNanos(verifCounterValue(c.tunnelTimePerLocation, "ns", "AA", "64500", "Org-even"), d0+d1) && verifEqNanos(verifCounterValue(c.tunnelTimePerLocation, "ns", "BB", "64501", "Org-odd"), d1))
-	verifAssert("C20.two-locations.each-client-under-its-own-location", verifEqNanos(verifCounterValue(c.tunnelTimePerLocation, "ns", "BB", "64501", "Org-odd"), d1))
-	c.stopConnection(k4)
-	c.stopConnection(k5)
-	verifReach("C17.two-locations.done", true)
 }
